@@ -63,6 +63,7 @@ type sessOut struct {
 	results  [][]*big.Int
 	wires    []*big.Int
 	snaps    []*gmw.Triples
+	dealtN   []uint64 // Pool.NumTriples at snapshot time
 	drained  []*gmw.Triples
 	closeErr []error
 	timeout  string
@@ -291,6 +292,7 @@ func runSession(cfg *sessCfg) *sessOut {
 		}
 		for p := 0; p < n; p++ {
 			so.snaps[p] = so.nws[p].Pool.VerifSnapshot()
+			so.dealtN = append(so.dealtN, atomic.LoadUint64(&so.nws[p].Pool.NumTriples))
 		}
 		for _, p := range cfg.order {
 			wg.Add(1)
